@@ -27,15 +27,18 @@ Judged on the implementation's observation at the end of the run (every pending 
 exactly one device object was ever announced / is the entry for every address with a device class that got a frame which
 was not in the hands of a task cancelled by the schedule; that object handled every such frame exactly once; its set-up
 was started once; every get() caller has it; no consumer died that the schedule did not cancel; the read queue's
-unfinished counter is 0.  The model side is Model/Entry.lean `stepC` (move `cancel`), theorem
-C10.cancelled_creator_does_not_block / single_device_with_cancels (all schedules).
+unfinished counter is 0.  Correspondence: the snapshot after every event (pending imports, objects created, set-ups,
+announcements, (frame, object) handled, get() results) equals the one of the cancel machine Model/EntryCancel.lean
+(`replayC`, driver op `c10c <consumers> <cr> <events>`), whose theorems are C10.cancelled_creator_does_not_block /
+single_device_with_cancels (all schedules).
 """
 import asyncio
 import itertools
 
 import pipefake
 
-from c10 import ECOMAX, ECOSTER, CREATABLE, frame_bytes, name_of
+from common import driver_batch
+from c10 import ECOMAX, ECOSTER, CREATABLE, CR_WORD, frame_bytes, name_of
 from c10 import AsyncProtocol, DeviceType, PhysicalDevice
 
 
@@ -96,7 +99,21 @@ def run_history(case):
         def n_handled():
             return len(handled)
 
+        effective, snaps = [], []
+
+        def snapshot():
+            for d in setups:
+                canon(d)
+            g = [(str(canon(t.result())) if t.done() and not t.cancelled() and t.exception() is None else ("w" if not t.done() else "x")) for _, t in gets]
+            return " ".join([str(len(loop.held)), str(loop.device_imports_ok), str(len(setups)),
+                             lst(f"{a}.{canon(d)}" for a, d in announced),
+                             lst(f"{int(v)}.{canon(d)}" for v, d in handled if isinstance(v, str) and v.isdigit()),
+                             lst(g)])
+
         for ev in events:
+            if ev == "R" and not loop.held:
+                continue
+            effective.append(ev)
             if ev[0] == "F":
                 a, m = ev[1:].split(":")
                 chunk = b""
@@ -138,11 +155,15 @@ def run_history(case):
             else:
                 raise ValueError(ev)
             loop.settle()
+            snaps.append(snapshot())
         guard = 0
         while loop.held and guard < 16:
             loop.release(0)
             loop.settle()
+            effective.append("R")
+            snaps.append(snapshot())
             guard += 1
+        obs.update(effective=effective, snapshots=snaps)
         obs.update(
             fed=fed, excused=sorted(excused),
             entry={a: (canon(proto.data[name_of(a)]) if name_of(a) in proto.data else None) for a in sorted(set(fed))},
@@ -156,6 +177,11 @@ def run_history(case):
             connections=conn["established"], executor_cancels_job=executor_ok, still_pending_imports=len(loop.held),
         )
     return obs
+
+
+def lst(xs):
+    xs = list(xs)
+    return ",".join(xs) if xs else "-"
 
 
 def consumers_alive(proto):
@@ -233,8 +259,10 @@ def fmt(case):
 def run_section(res, rng, tier, only=None):
     cases = only if only is not None else [dict(consumers=n, events=h) for h in histories(tier) for n in ((1, 3) if tier == "quick" else (1, 2, 3, 5))]
     nX = 0
+    ran = []
     for case in cases:
         obs = run_history(case)
+        ran.append((case, obs))
         res.case(fmt(case), True)
         kinds = sorted({e for e in case["events"] if e[0] == "X"})
         res.count("cancelled-creation:" + "+".join(kinds) + (",second-connection" if ("C" in case["events"] or "XT" in kinds) else ",same-connection"))
@@ -249,6 +277,17 @@ def run_section(res, rng, tier, only=None):
                      "one device object per address that receives every frame from the address, set-up started once - also after the "
                      "task creating it was cancelled while the class loading was pending", dict(violated=bad, observed=obs),
                      "that object receives every frame from the address (after a cancelled creation): " + bad[0])
+    # correspondence with the cancel machine (Model/EntryCancel.lean replayC, driver op c10c): one snapshot per event
+    answers = driver_batch([f"c10c {case['consumers']} {CR_WORD} {' '.join(obs['effective'])}" for case, obs in ran])
+    for (case, obs), ans in zip(ran, answers):
+        model = [x.strip() for x in ans.split(" ; ")]
+        if model != obs["snapshots"]:
+            k = next((i for i, (x, y) in enumerate(zip(model, obs["snapshots"])) if x != y), min(len(model), len(obs["snapshots"])))
+            res.fail("corr", dict(cancel_history=case, history=fmt(case), effective=obs["effective"], index=k),
+                     model[k] if k < len(model) else None, obs["snapshots"][k] if k < len(obs["snapshots"]) else None,
+                     "entry machine with cancellations (replayC) and implementation differ")
+        else:
+            res.count("cancelled-creation:model-agrees")
     res.extra["cancelled_creation_histories"] = nX
     res.rule += ("; cancellation dimension: the task creating the entry (a user's get_device_entry() call cancelled as by wait_for, or the "
                  "consumers cancelled by protocol.cancel_tasks() followed by a second connection) is cancelled while the class loading is "
